@@ -5,6 +5,40 @@ use crate::eval::{Machine, V};
 use crate::report::Ctx;
 use crate::srcmodel::{self as sm};
 
+/// N1 (C11): an integer-valued float is recognised exactly.
+pub fn exact_integer_test(cx: &mut Ctx, rule: &str) {
+    cx.rule(rule, "float rendering used by the unparser: float::to_string takes its `<digits>.0` shortcut only for values whose fractional part is exactly zero — is_integer is an exact test (fract() == 0.0 / trunc() == v), with no tolerance (EPSILON, round, abs, <): a float that is merely close to an integer must be rendered with all its digits or it does not parse back to itself");
+    cx.floor(rule, 2);
+    let src = match sm::load(&cx.repo, "literal/src/float.rs") {
+        Ok(s) => s,
+        Err(e) => return cx.anchor_missing(rule, &e),
+    };
+    match src.free_fns("is_integer").into_iter().next() {
+        None => cx.anchor_missing(rule, "float::is_integer"),
+        Some(f) => {
+            let t = sm::tsc(&f.block);
+            let exact = ["{v.fract()==0.0}", "{v.fract()==0.}", "{0.0==v.fract()}", "{v.trunc()==v}", "{v==v.trunc()}", "{v.fract()==0f64}"].contains(&t.as_str());
+            let tolerant = ["EPSILON", "round()", "abs()", "<", "1e-"].iter().any(|x| t.contains(x));
+            if exact && !tolerant {
+                cx.ok(rule, &format!("is_integer is the exact test `{}`", t));
+            } else {
+                cx.fail(rule, &format!("{}/is_integer", rule), &src.loc(f), &format!("is_integer is `{}`: not an exact integrality test, so floats next to an integer (e.g. 0.9999999999999999) are rendered as that integer", t));
+            }
+        }
+    }
+    match src.free_fns("to_string").into_iter().next() {
+        None => cx.anchor_missing(rule, "float::to_string"),
+        Some(f) => {
+            let t = sm::tsc(&f.block);
+            if t.contains("ifis_integer(value){format!(\"{value:.1?}\")}else{value.to_string()}") {
+                cx.ok(rule, "to_string: `{:.1?}` only under is_integer(value), otherwise the shortest round-trip rendering");
+            } else {
+                cx.fail(rule, &format!("{}/to_string", rule), &src.loc(f), "to_string does not choose between `{:.1?}` (exact integers) and the shortest round-trip rendering by is_integer(value)");
+            }
+        }
+    }
+}
+
 /// R1: the repr-style window of float::to_string; G1: digits/decimal-point agreement in the three renderers.
 pub fn float_renderer(cx: &mut Ctx, rule: &str) {
     cx.rule(rule, "float renderer (literal/src/float.rs): (a) to_string — the rendering format() uses when neither type nor precision is given — chooses fixed notation exactly for decimal exponents in [-4, 16), interpreted from its condition for every exponent in -8..=20 (Python's repr switch points 1e-4 and 1e16); (b) in format_fixed, format_exponent and both branches of format_general the digit count passed to decimal_point_or_empty is the digit count the digits were rendered with (the `#` flag adds a point exactly when no fractional digit was produced)");
